@@ -148,7 +148,7 @@ def eval_case(case):
 
 def shards(ctx):
     build.build("asm")
-    U = c11.universe(ctx)
+    U = c11.universe(ctx, quick_l=3)
     vals = wk.values(ctx.seed)
     reach = wk.reachable(U["l"], U["names"], vals, witnesses=1)
     out = []
@@ -159,7 +159,7 @@ def shards(ctx):
 
 
 def run_shard(ctx, shard):
-    U = c11.universe(ctx)
+    U = c11.universe(ctx, quick_l=3)
     vals = wk.values(ctx.seed)
     state = (shard["state"][0], tuple(shard["state"][1]))
     pat = state[1]
